@@ -40,7 +40,7 @@ CLAIMS = {
  "C16": dict(category="other", design="4/C16",
   text="A pure functional model cannot express aliasing: the Lean theorems (operations are functions of their operands; only `step` has a state output; frame lemmas for step) are "
        "nearly trivial and said to be so. The substance is observational: every operand (object coordinates/class, NumPy raw bytes/dtype/shape/flags, Awkward to_buffers/form/fields) is snapshotted "
-       "bit-for-bit before and after each call of the catalogue on every backend pairing, including calls that raise, reductions and operators.",
+       "bit-for-bit before and after each call of the catalogue on every backend pairing, including calls that raise, reductions and operators. For NumPy vector arrays the HEAP model of C19 makes aliasing expressible: c19h_frame (non-writing operations leave every buffer and every other variable unchanged), c19h_frame_write (a write touches only the addressed rows/field of its target's buffer), c19h_copy_detached, for every history; tied to the real arrays by the heap histories (state compared after every step).",
   note="Trusted: the snapshot functions and the call catalogue of harness/arrays.py; CPython/NumPy/Awkward.",
   technique="trivial Lean frame theorems + exhaustive before/after snapshot observation of operands"),
  "C17": dict(category="proof", design="4/C17",
@@ -59,7 +59,7 @@ CLAIMS = {
  "C19": dict(category="proof", design="4/C19",
   text="NumPy vector array = glue vector at a column type: integer index keeps type/system/flavor and returns exactly the element's coordinates; slices, masks, reshapes, views are reindexings that keep "
        "the type and commute with indexing; pickle/copy = identity reindexing; name index returns the stored column at every position (under the identity-accessor laws, proved for the generated layer); "
-       "asArray of a single vector. Tie: shapes up to 3-D, 20 systems x 2 flavors, index expressions, name/synonym index, slice assignment, pickle/deepcopy/copy, asanyarray/asarray on the real backend.",
+       "asArray of a single vector. Tie: shapes up to 3-D, 20 systems x 2 flavors, index expressions, name/synonym index, slice assignment, pickle/deepcopy/copy, asanyarray/asarray on the real backend. HEAP MODEL (Glue/Heap.lean, Props/C19Heap.lean, 71 theorems): buffers, views as index maps into a shared buffer, copies/deepcopies/pickles/advanced indexing as fresh buffers, name and slice assignment as writes through a reference; for EVERY history: a view/slice stays an alias (reads are the reindexing of the base's reads, writes through either are seen by the other), a copy stays detached, type/flavor/system are preserved, name index = stored column for every spelling, errors have no effect. Tie: random multi-variable histories on the real arrays vs the Lean driver, full state (records, every named column, numpy.shares_memory of every pair) compared after every operation.",
   note=GL + "NumPy view mechanics trusted.",
   technique="Lean 4 proofs about a hand-written array model + differential indexing harness"),
  "C20": dict(category="proof", design="4/C20",
